@@ -1,9 +1,74 @@
 /-
-  C03 (container level) — what acceptance by the .xz container decoder implies.
+  C03 (container level) — what the .xz container decoder accepts, and that it is a function of the input.
+
+  Model: Model/XzDecode.lean (`blockDecode`, `streamOne`, `xzDecode`; payload decoder and check function are parameters).
+  Declarative grammar: `ValidXz` / `ValidStream` / `BlocksRun` / `BlockFacts` / `FooterFacts` in Lemmas/XzDecode*.lean,
+  written field by field after doc/xz-file-format.txt (sections 2.1 Stream, 3 Block, 4 Index) in terms of the field
+  codecs of Model/Container.lean.
 -/
-import XzVerif.Model.XzDecode
+import XzVerif.Lemmas.XzDecodeStream
+import XzVerif.Lemmas.XzDecodeFunctional
 
 namespace XzVerif.C03Container
 open XzVerif XzVerif.Container XzVerif.XzDecode
+
+/-- **block_sizes_enforced.**  If the Block decoder finishes a Block with LZMA_STREAM_END then (`BlockFacts`):
+    the raw decoder ended; the Compressed Size and Uncompressed Size fields of the Block Header, when present, equal the
+    number of bytes the raw decoder consumed and produced; the bytes after the Compressed Data are exactly
+    `blockPadLen` zero bytes of Block Padding followed by the Check field; and the Check field equals the check of the
+    output whenever the Check ID is supported and LZMA_IGNORE_CHECK is off. -/
+theorem block_sizes_enforced (E : Env) (check : Nat) (ign : Bool) (hs : Nat) (h : BlockHeader) (inp : List UInt8)
+    (cap : Nat) (hb : (blockDecode E check ign hs h inp cap).ret = .streamEnd) :
+    BlockFacts E check ign hs h inp cap (blockDecode E check ign hs h inp cap) :=
+  blockDecode_streamEnd E check ign hs h inp cap _ rfl hb
+
+/-- **index_matches_blocks.**  If a Stream is accepted, the bytes of its Index field are the canonical encoding
+    (`Container.indexEncode`) of the list of (Unpadded Size, Uncompressed Size) pairs of the Blocks that were decoded, in
+    order — so the Records of the Index are exactly the Blocks.
+    HashInjective: the C code compares SHA-256 digests of the two sequences of pairs (index_hash.c); the model compares the
+    sequences themselves, which is the same verdict unless SHA-256 collides on them. -/
+theorem index_matches_blocks (E : Env) (fl : Flags) (first : Bool) (inp : List UInt8) (cap : Nat)
+    (h : (streamOne E fl first inp cap).ret = .streamEnd) :
+    ∃ (hdr : StreamFlags) (out : List UInt8) (c : Nat) (blocks : HashInfo),
+      BlocksRun E fl hdr [] (inp.drop STREAM_HEADER_SIZE) cap out c blocks ∧
+      (inp.drop (STREAM_HEADER_SIZE + c)).take (indexHashSize blocks) = indexEncode blocks ∧
+      (indexEncode blocks).length = indexHashSize blocks := by
+  obtain ⟨hdr, c, final, s2, _, _, hrun, hF, _, _⟩ := streamOne_streamEnd E fl first inp cap _ rfl h
+  exact ⟨hdr, _, c, final, hrun, hF.index_bytes, hF.index_len⟩
+
+/-- **xz_decode_sound.**  Acceptance implies the declarative grammar (see `C05.accept_implies_checked` for what `ValidXz`
+    spells out). -/
+theorem xz_decode_sound (E : Env) (fl : Flags) (b : List UInt8) (cap : Nat)
+    (h : (xzDecode E fl b cap).ret = .streamEnd) :
+    ValidXz E fl b cap (xzDecode E fl b cap).out (xzDecode E fl b cap).consumed := by
+  have hcall : xzDecode E fl b cap = xzCall E fl b cap := by
+    unfold xzDecode at h ⊢
+    simp only [] at h ⊢
+    split
+    · rename_i hok; rw [if_pos hok] at h; simp at h
+    · rfl
+  rw [hcall] at h ⊢
+  exact xzLoop_streamEnd E fl _ _ _ _ _ rfl h
+
+/-- **xz_decode_functional.**  The grammar is unambiguous: a byte string has at most one reading as valid Stream(s), so
+    the decoded data and the consumed length are determined by the input (for fixed flags and environment). -/
+theorem xz_decode_functional (E : Env) (fl : Flags) (b : List UInt8) (cap : Nat) (o₁ o₂ : List UInt8) (n₁ n₂ : Nat)
+    (h₁ : ValidXz E fl b cap o₁ n₁) (h₂ : ValidXz E fl b cap o₂ n₂) : o₁ = o₂ ∧ n₁ = n₂ :=
+  ValidXz_functional h₁ h₂
+
+/-- Completeness (`ValidXz b out n → xzDecode b = ok out n`) is not proved here; it would make `ValidXz` an exact
+    characterisation.  What stands in for it: the model is run against the real decoder on valid files from the real
+    encoder and on every single-fault variant of them (./check C05, ./check C03). -/
+def xz_decode_complete_statement : Prop :=
+  ∀ (E : Env) (fl : Flags) (b : List UInt8) (cap : Nat) (out : List UInt8) (n : Nat),
+    ValidXz E fl b cap out n →
+    (xzDecode E fl b cap).ret = .streamEnd ∧ (xzDecode E fl b cap).out = out ∧ (xzDecode E fl b cap).consumed = n
+
+/-- `xz_decode_complete_partial`: the decoder and the grammar can never disagree on an accepted input — if the decoder
+    accepts, any grammatical reading of the same bytes has the decoder's output and length. -/
+theorem xz_decode_complete_partial (E : Env) (fl : Flags) (b : List UInt8) (cap : Nat) (out : List UInt8) (n : Nat)
+    (hv : ValidXz E fl b cap out n) (h : (xzDecode E fl b cap).ret = .streamEnd) :
+    (xzDecode E fl b cap).out = out ∧ (xzDecode E fl b cap).consumed = n :=
+  ValidXz_functional (xz_decode_sound E fl b cap h) hv
 
 end XzVerif.C03Container
